@@ -258,6 +258,8 @@ func newPrelude() *Prelude {
 	p.add("(declare-fun i2bv64 (Int) (_ BitVec 64))")
 	p.add("(declare-fun bv2i64 ((_ BitVec 64)) Int)")
 	p.add("(declare-fun ubv2i64 ((_ BitVec 64)) Int)")
+	// the unsigned reading of a bit-vector is non-negative, and small values read as themselves
+	p.add("(assert (forall ((y (_ BitVec 64))) (! (and (<= 0 (ubv2i64 y)) (=> (bvule y #x000000000000ffff) (<= (ubv2i64 y) 65535))) :pattern ((ubv2i64 y)))))")
 	// float carriers
 	p.add("(declare-fun toF64 ((_ BitVec 64)) F64)")
 	p.add("(declare-fun utoF64 ((_ BitVec 64)) F64)")
